@@ -396,56 +396,67 @@ package control
 //@   ensures forall i int :: 0 <= i && i < 16 ==> result.pname[i] == 0
 
 // every rule appended to the builder carries a kernel record and a compiled record that agree
+// (frame trusted: an in-place append writes the spare capacity of the two backing arrays, which no slice
+// value held elsewhere can observe without re-slicing past its length)
 //@ func (*RoutingMatcherBuilder).appendRule
 //@   requires b != nil
 //@   requires agree(set, compiled)
-//@   modifies *
+//@   modifies b.rules, b.compiledRules
+//@   trustframe
 //@   ensures len(b.rules) == old(len(b.rules)) + 1 && len(b.compiledRules) == old(len(b.compiledRules)) + 1
 
 // the ten lowerings: each must establish agree(...) at its appendRule call (precondition of appendRule)
 //@ func (*RoutingMatcherBuilder).addDomain
-//@   requires b != nil && f != nil && outbound != nil
+//@   requires b != nil && f != nil && outbound != nil && b.referencedOutbounds != nil
 //@   dyncalls noeffect
 //@   modifies *
 //@ func (*RoutingMatcherBuilder).addSourceMac
-//@   requires b != nil && f != nil && outbound != nil
+//@   requires b != nil && f != nil && outbound != nil && b.referencedOutbounds != nil
 //@   dyncalls noeffect
 //@   modifies *
 //@ func (*RoutingMatcherBuilder).addIp
 //@   requires b != nil && f != nil && outbound != nil && b.lpmDedup != nil
+//@   requires b.referencedOutbounds != nil
+//@   at call appendRule#1 assert calls("builtin:append") == 1 ==> a2.lpmIndex == len(b.simulatedLpmTries) - 1 && b.simulatedLpmTries[a2.lpmIndex].$base == values.$base && len(b.simulatedLpmTries[a2.lpmIndex]) == len(values)
+//@   at call appendRule#1 assert calls("builtin:append") == 0 ==> has(b.lpmDedup, hash) && a2.lpmIndex == b.lpmDedup[hash].index
+//@   at call appendRule#1 assert calls("builtin:append") <= 1
 //@   dyncalls noeffect
 //@   modifies *
 //@ func (*RoutingMatcherBuilder).addSourceIp
 //@   requires b != nil && f != nil && outbound != nil && b.lpmDedup != nil
+//@   requires b.referencedOutbounds != nil
+//@   at call appendRule#1 assert calls("builtin:append") == 1 ==> a2.lpmIndex == len(b.simulatedLpmTries) - 1 && b.simulatedLpmTries[a2.lpmIndex].$base == values.$base && len(b.simulatedLpmTries[a2.lpmIndex]) == len(values)
+//@   at call appendRule#1 assert calls("builtin:append") == 0 ==> has(b.lpmDedup, hash) && a2.lpmIndex == b.lpmDedup[hash].index
+//@   at call appendRule#1 assert calls("builtin:append") <= 1
 //@   dyncalls noeffect
 //@   modifies *
 //@ func (*RoutingMatcherBuilder).addPort
-//@   requires b != nil && f != nil && outbound != nil
+//@   requires b != nil && f != nil && outbound != nil && b.referencedOutbounds != nil
 //@   dyncalls noeffect
 //@   modifies *
 //@ func (*RoutingMatcherBuilder).addSourcePort
-//@   requires b != nil && f != nil && outbound != nil
+//@   requires b != nil && f != nil && outbound != nil && b.referencedOutbounds != nil
 //@   dyncalls noeffect
 //@   modifies *
 //@ func (*RoutingMatcherBuilder).addL4Proto
-//@   requires b != nil && f != nil && outbound != nil
+//@   requires b != nil && f != nil && outbound != nil && b.referencedOutbounds != nil
 //@   dyncalls noeffect
 //@   modifies *
 //@ func (*RoutingMatcherBuilder).addIpVersion
-//@   requires b != nil && f != nil && outbound != nil
+//@   requires b != nil && f != nil && outbound != nil && b.referencedOutbounds != nil
 //@   dyncalls noeffect
 //@   modifies *
 //@ func (*RoutingMatcherBuilder).addProcessName
-//@   requires b != nil && f != nil && outbound != nil
+//@   requires b != nil && f != nil && outbound != nil && b.referencedOutbounds != nil
 //@   dyncalls noeffect
 //@   modifies *
 //@ func (*RoutingMatcherBuilder).addDscp
-//@   requires b != nil && f != nil && outbound != nil
+//@   requires b != nil && f != nil && outbound != nil && b.referencedOutbounds != nil
 //@   dyncalls noeffect
 //@   modifies *
 // (the configuration decoder never stores a nil *Function: assumed)
 //@ func (*RoutingMatcherBuilder).addFallback
-//@   requires b != nil
+//@   requires b != nil && b.referencedOutbounds != nil
 //@   at call ParseFunctionOrString#1 assume-after nth(result, 1) == nil ==> nth(result, 0) != nil
 //@   dyncalls noeffect
 //@   modifies *
@@ -609,3 +620,34 @@ package control
 //@   at call Map).Store#2 assert unbox(a1, "string") == baseKey && typeis(a2, "int64") && unbox(a2, "int64") == expiresAt && (!ok || currentExpiresAt < expiresAt)
 //@   ensures calls("Map).Store") <= 1
 //@   ensures baseKey == "" ==> calls("Map).Store") == 0
+
+// C01/C02 glue: what the userspace matcher is asked is the packet as the kernel sees it - IPv4 iff the
+// destination is IPv4 or IPv4-mapped, the 16-byte forms of both addresses, both ports in host order, the
+// MAC right-aligned in 16 bytes, process name and DSCP of the routing result.
+//@ func (*ControlPlane).Route
+//@   requires c != nil && routingResult != nil
+//@   anchorsonly
+//@   dyncalls noeffect
+//@   modifies *
+//@   at call Match#1 assert a1 == src.Addr().As16() && a2 == dst.Addr().As16() && a3 == src.Port() && a4 == dst.Port()
+//@   at call Match#1 assert a5 == ((dst.Addr().Is4() || dst.Addr().Is4In6()) ? consts.IpVersion_4 : consts.IpVersion_6) && a6 == l4proto && a7 == domain
+//@   at call Match#1 assert a8 == routingResult.Pname && a9 == routingResult.Dscp
+//@   at call Match#1 assert forall i int :: 0 <= i && i < 6 ==> a10[10 + i] == routingResult.Mac[i]
+//@   at call Match#1 assert forall i int :: 0 <= i && i < 10 ==> a10[i] == 0
+
+// C19: flow-tuple key as the kernel builds it: both addresses in 16-byte form after unmapping-convergence,
+// ports in network byte order, protocol byte, zero padding.
+//@ func bpfTuplesKeyFromAddrPorts
+//@   dyncalls noeffect
+//@   ensures result.Sip.U6Addr8 == common.ConvergeAddrPort(src).Addr().As16() && result.Dip.U6Addr8 == common.ConvergeAddrPort(dst).Addr().As16()
+//@   ensures result.Sport == common.Htons(common.ConvergeAddrPort(src).Port()) && result.Dport == common.Htons(common.ConvergeAddrPort(dst).Port())
+//@   ensures result.L4proto == l4proto
+
+// outbound name -> id: the three logical names map to their reserved ids, everything else through the
+// table of defined groups; only the referenced-groups set is written.
+//@ func (*RoutingMatcherBuilder).outboundToId
+//@   requires b != nil && b.referencedOutbounds != nil
+//@   modifies mapof(b.referencedOutbounds)
+//@   ensures outbound == consts.OutboundLogicalOr.String() ==> result1 == nil && result0 == consts.OutboundLogicalOr
+//@   ensures outbound == consts.OutboundLogicalAnd.String() && outbound != consts.OutboundLogicalOr.String() ==> result1 == nil && result0 == consts.OutboundLogicalAnd
+//@   ensures result1 == nil && outbound != consts.OutboundLogicalOr.String() && outbound != consts.OutboundLogicalAnd.String() && outbound != consts.OutboundMustRules.String() ==> has(b.outboundName2Id, outbound) && result0 == b.outboundName2Id[outbound]
